@@ -195,12 +195,13 @@ func (x *Config) Serializer(msg any) Serializer {
 		return nil
 	}
 
+	// exact concrete type first
+	if serializer, ok := x.serializers[msgType]; ok && msgType.Kind() != reflect.Interface {
+		return serializer
+	}
+
 	for typ, serializer := range x.serializers {
-		if typ.Kind() == reflect.Interface {
-			if msgType.Implements(typ) {
-				return serializer
-			}
-		} else if msgType == typ {
+		if typ.Kind() == reflect.Interface && msgType.Implements(typ) {
 			return serializer
 		}
 	}
